@@ -201,7 +201,7 @@ func (x *FnCtx) stringConst(s string) *Term {
 		x.eng.strIDs[s] = id
 	}
 	// string ids live far above object refs? keep them as small negative numbers: distinct from refs
-	t := x.tb.IntC(-id)
+	t := x.tb.IntC(3000000 + id)
 	x.axiom(x.tb.Eq(x.tb.UF("str.len", x.intSort(), t), x.idx(int64(len(s)))))
 	return t
 }
@@ -265,7 +265,7 @@ func (x *FnCtx) funcRef(fv FuncV) *Term {
 		id = int64(len(x.eng.funcIDs) + 1)
 		x.eng.funcIDs[fv.Fn] = id
 	}
-	return x.tb.IntC(-1000000 - id)
+	return x.tb.IntC(2000 + id)
 }
 
 func (x *FnCtx) locRef(l LocV) *Term {
@@ -674,6 +674,13 @@ func (x *FnCtx) mergeValues(conds []*Term, vals []Value) Value {
 	}
 	if same {
 		return vals[0]
+	}
+	// function values merge through their reference terms
+	for i, v := range vals {
+		if fv, ok := v.(FuncV); ok {
+			vals = append([]Value{}, vals...)
+			vals[i] = x.funcRef(fv)
+		}
 	}
 	switch v0 := vals[len(vals)-1].(type) {
 	case *Term:
